@@ -281,7 +281,44 @@ def run(tier, seed, replay=None):
         judge_text(text, "huge", must_not_allow=False)
     # function-level ties of the two helpers that decide WHICH word is the program name
     from . import funcs
-    funcs.run_ties(out, model, ["is_assignment", "strip_quotes", "analyze_prelude"], tier, rng, an)
+    diffs = funcs.run_ties(out, model, ["is_assignment", "strip_quotes", "analyze_prelude"], tier, rng, an)
+    # round seven (seeded change C05v: a greedy subscript in the assignment pattern): every word the IMPLEMENTATION takes for an
+    # assignment (token-exhaustive over the alphabet below, plus the inputs on which the function-level tie differs) is given to
+    # real bash: when bash runs it as a command (status 127 in an empty directory), `WORD ls` may not be approved - the word is
+    # the name of an unknown program.  One bash process, one eval in a subshell per word.
+    import itertools as _it
+    import subprocess
+    import tempfile
+    cands = [w for w in diffs.get("is_assignment", [])]
+    alpha = ["a", "x", "_", "1", "[", "]", "]=", "+", "=", "-", "."]
+    isa = getattr(an, "_is_assignment_word", None)
+    if isa is not None:
+        for n in range(1, 6 if tier == "quick" else 7):
+            for tup in _it.product(alpha, repeat=n):
+                w = "".join(tup)
+                if isa(w):
+                    cands.append(w)
+    safe = set("abcdefghijklmnopqrstuvwxyzABCDEFGHIJKLMNOPQRSTUVWXYZ0123456789_[]+=-./,:@%")
+    cands = sorted({w for w in cands if w and set(w) <= safe})
+    if len(cands) > (6000 if tier == "quick" else 60000):
+        cands = rng.sample(cands, 6000 if tier == "quick" else 60000)
+    with tempfile.TemporaryDirectory() as td:
+        Path(td, "words").write_text("".join(w + "\n" for w in cands))
+        script = 'cd "$1"; while IFS= read -r w; do ( eval "$w true" ) >/dev/null 2>&1; echo $?; done < words'
+        pr = subprocess.run(["bash", "--norc", "--noprofile", "-c", script, "x", td], capture_output=True, text=True, timeout=600,
+                            env={"PATH": "/usr/bin:/bin"})
+        codes = pr.stdout.split()
+    n_cmd = 0
+    if len(codes) == len(cands):
+        for w, rc in zip(cands, codes):
+            if rc == "127":
+                n_cmd += 1
+                judge_text(f"{w} ls", "assignment-shaped-command-name", must_not_allow=True)
+                judge_text(f"{w}", "assignment-shaped-command-name", must_not_allow=True)
+    else:
+        out.disagreements.append({"correspondence": "bash oracle for assignment words", "detail": f"{len(codes)} answers for {len(cands)} words: {pr.stderr[:200]}"})
+    out.extra["assignment_word_oracle"] = {"words_the_implementation_takes_for_assignments": len(cands), "of_which_bash_runs_as_a_command": n_cmd,
+                                           "alphabet": alpha}
     model.close()
     n, mism = core.coq_crosscheck("C05", xcheck)
     out.extra["coq_vm_crosscheck"] = {"cases": n, "mismatches": len(mism)}
